@@ -5,7 +5,7 @@ PROPERTY = "C17"
 LEAN_MODULE = "IsobarV.Props.C17"
 THEOREMS = ["IsobarV.C17." + t for t in (
     "tolerant_never_raises", "tolerant_time_advances", "fault_propagates", "fault_contained_step",
-    "callback_exception_swallowed", "callback_stop_ends_track")]
+    "callback_exception_swallowed", "callback_stop_ends_track", "fault_isolated")]
 RULE = ("fault injection at pattern evaluation, Event construction, the device's note_on (per voice) / control / program_change, and "
         "inside action callbacks (exception, StopIteration, failing timeline call), with 1-5 healthy tracks in random order, both "
         "tolerance modes; (a) real Timeline vs Lean model; (b) differential oracle on the implementation alone: every healthy "
